@@ -91,6 +91,30 @@ class Run:
             self.drain(chooser)
         return self.status()
 
+    def observe_events(self):
+        """What a user who asks for the events now is shown (jade's own EventsSummary: consolidates if nobody has yet)
+        against every line of the *events.log files: counts by event name."""
+        import glob
+        from jade.events import EventsSummary
+        out = self.w.out
+        logged = {}
+        for f in glob.glob(os.path.join(out, "*events.log")):
+            with open(f) as fh:
+                for line in fh:
+                    if line.strip():
+                        n = json.loads(line)["name"]
+                        logged[n] = logged.get(n, 0) + 1
+        es = EventsSummary(out)
+        summary = {}
+        for n in logged:
+            if n in EventsSummary.RESOURCE_STATS:
+                if n != "process_stats":          # one row per process there, not per event
+                    summary[n] = int(len(es.get_dataframe(n)))
+            else:
+                summary[n] = len(es.list_events(n))
+        logged = {n: c for n, c in logged.items() if n != "process_stats"}
+        self.w.ev(e="eventsobs", logged=sorted([n, c] for n, c in logged.items()), summary=sorted([n, c] for n, c in summary.items()))
+
     def finish(self):
         self.w.close()
         tr = {"scn": self.scn, "ev": self.w.trace, "moves": self.w.moves, "seed": self.seed}
@@ -250,6 +274,8 @@ def run_resubmit(scn, seed, flag_sets, debug=False):
             r.user("resubmit-jobs", r.w.out, *flags)
             r.drain()
             r.recover(how="try-submit-jobs")
+        if scn.get("reports") and scn.get("monitor"):
+            r.observe_events()
         r.w.ev(e="end", recoveries=r.recoveries, full=True)
     finally:
         tr = r.finish()
